@@ -15,7 +15,7 @@ import (
 )
 
 func init() {
-	register(&Rule{ID: "C08", Patterns: []string{"./acl", "./agent/structs"}, Run: runC08})
+	register(&Rule{ID: "C08", Patterns: []string{"./acl", "./agent/structs", "./agent/consul"}, Run: runC08})
 }
 
 const aclPkg = "acl"
@@ -34,7 +34,9 @@ func constOf(p *core.Program, rel, name string) (constant.Value, bool) {
 
 func runC08(c *Ctx) {
 	r := c.R
+	defer checkHashRecomputedOnWrite(c)
 	r.Clauses = []string{
+		"C08.7 every ACL object the servers write (endpoints, leader bootstrap/upgrade paths) gets its content hash recomputed unconditionally (SetHash(true)): the parsed-policy cache and the replication diff are keyed by that hash, so a hash carried over from a read-modify-write would make the authorizer keep deciding by the old rules",
 		"C08.1 the two precedence functions, evaluated over their whole finite input domain, give the documented total order deny > write > list > read and the documented grant table",
 		"C08.2 merging a token's policies never mutates a rule object that is shared with the parsed-policy cache (no in-place store through a merge-map entry that aliases an input rule)",
 		"C08.3 every policyAuthorizer method asks for the access level its name says and siblings of one resource consult the same rule tree; chained and allow authorizers delegate to the like-named method with their own arguments",
@@ -800,4 +802,29 @@ func checkWildcardLeafConsidersPrefix(c *Ctx) {
 		}
 	}
 	r.Floor("C08.6", 2)
+}
+
+
+// C08.7
+func checkHashRecomputedOnWrite(c *Ctx) {
+	p, r := c.P, c.R
+	n := 0
+	for _, f := range p.SrcFuncs("agent/consul") {
+		for _, in := range callsTo(f, func(cm *ssa.CallCommon) bool {
+			g := cm.StaticCallee()
+			return g != nil && g.Name() == "SetHash" && g.Signature.Recv() != nil && strings.Contains(core.ShortType(g.Signature.Recv().Type()), "structs.ACL")
+		}) {
+			n++
+			args := in.(ssa.CallInstruction).Common().Args
+			force := args[len(args)-1]
+			construct := core.FuncName(f) + "/SetHash" + lineOf(p, in)
+			if v, ok := core.ConstBool(force); ok && v {
+				r.Hold("C08.7", construct, p.Pos(in.Pos()), "hash recomputed unconditionally before the write")
+			} else {
+				r.Violate("C08.7", construct, p.Pos(in.Pos()), "the content hash of an ACL object about to be written is recomputed only when the request carries none: an update that sends back the object it read (hash included) with new rules is stored under the OLD hash, the parsed-policy cache keyed by that hash keeps serving the old rules, and tokens are authorised by rules their policy no longer has")
+			}
+		}
+	}
+	r.Floor("C08.7", 5)
+	_ = n
 }
